@@ -1,11 +1,15 @@
 (* Property C08: documented source-level equivalences preserve meaning.
-   PARTIAL.  Proved on the reference semantics, for all programs, scopes and fuel:
-   the three spellings of binding (let / -> / call), and laziness of &&, || and
-   cond (the result does not depend on the unselected operand in any way).
-   Comments, whitespace, redundant parentheses, precedence/associativity, the \.
-   default binder, literal folding and sugar vs spelled-out literals concern the
-   wbnf parser and the compiler (syntax/compile.go), which are not modelled: they
-   are decided by the metamorphic run original-vs-rewritten on the implementation. *)
+   Proved on the reference semantics (Eval/Interp.v), for all programs, scopes and fuels:
+   - the three spellings of binding (let / -> / call) and laziness of &&, || and cond;
+   - an array / dict literal is its spelled-out set of tuples (same value, same failure);
+   - CONGRUENCE: a rewrite by any meaning-preserving rule, at any position of any program (all 27 expression forms,
+     under binders, in transformer positions, inside the expressions of patterns), any number of them at once,
+     preserves the function-free answers exactly and relates the functions (Eval/Rewrite.v: plug, crel, vrel);
+   - replacing a let-bound name by its value: PARTIAL (bodies without binders); with binders in the body the model
+     of the substitution (Eval/Rewrite.v: subst) is tied to the implementation by differential execution only.
+   Comments, whitespace, redundant parentheses, precedence / associativity, the \. default binder and literal folding
+   concern the wbnf parser and the compiler (syntax/compile.go), which are not modelled: they are decided by the
+   metamorphic run original-vs-rewritten on the implementation and by the regenerated precedence table. *)
 From Arrai Require Import Base.Val Spec.SetAlg Eval.Interp Eval.Rewrite Proofs.EquivP Proofs.FuelP Proofs.SugarP Proofs.RelValP Proofs.CongrP Proofs.SubstP Proofs.DictSugarP Proofs.CongrSymP Gen.Prec Sys.Prec.
 
 Theorem C08_let_is_arrow :
